@@ -8,6 +8,7 @@ re-exposed by growing after a shrink, and of blocks recycled from deleted files)
 The block-level half is on the block-map model M7: every block freed by a truncation is all
 zeros afterwards (`freed_blocks_are_all_zeros`), and truncation writes nothing but zeros.
 -/
+import GoNfsd.Gen.Skeleton
 import GoNfsd.Lemmas.FsStep
 import GoNfsd.Lemmas.InoOps
 import GoNfsd.Lemmas.FileDataBridge
@@ -271,5 +272,19 @@ example : ((g12.foldl G.apply G.empty).maps 2 0, ((g12.foldl G.apply G.empty).fi
     (100, [0xbb, 0, 0, 0]) := by decide +kernel
 
 end blocks
+
+/-! ### the inode a request reads and writes is the one its lock protects -/
+
+/-- A request trusts the cached inode — size, block pointers — that `LockInode` fetches from the
+    inode cache, and writes it back.  That object is THE inode only if it is fetched while the
+    inode's lock is held: a slot fetched before the lock is granted may have been evicted by the
+    time the request runs; writing the orphaned copy back resurrects a truncated file's size and
+    pointers, and the file then shows whatever the next owner of those blocks writes.  The call
+    order of `Acquire` / `LookupSlot` / `Release` in package fstxn is regenerated on every run
+    (`Gen.Skeleton.slotUses`; model M8d in `Props/C03`). -/
+theorem the_inode_written_back_is_the_locked_one :
+    ∀ f ∈ GoNfsd.Gen.Skeleton.slotUses, GoNfsd.Model.Skeleton.slotCheck f = true := by decide
+
+example : GoNfsd.Model.Skeleton.slotCheck ("LockInode", [(0, "LookupSlot"), (0, "Acquire")]) = false := by decide
 
 end GoNfsd.Props.C12
